@@ -86,6 +86,42 @@ Proof.
   pose proof (In_cnt_pos id (cch nd) e He Er). lia.
 Qed.
 
+(** every child edge of a stored node is a valid edge value *)
+Lemma child_edge_ok : forall s j nd x, CInv s -> cfind (cn s) j = Some nd -> In x (cch nd) ->
+  edge_ok_b (cn s) x = true.
+Proof.
+  intros s j nd x H F Hx.
+  apply (node_pre_b_child_ok k terms nl _ _ _ x (ti_pre _ _ _ _ (ci_tbl s H) j nd F) Hx).
+Qed.
+
+(** whatever can be borrowed from a valid edge is a valid edge *)
+Lemma borrow_ok : forall s, CInv s -> forall f root e, edge_ok_b (cn s) root = true ->
+  borrow_b (cn s) f root e = true -> edge_ok_b (cn s) e = true.
+Proof.
+  intros s H. induction f as [|f IH]; intros root e Hok Hb; simpl in Hb;
+    apply orb_true_iff in Hb; destruct Hb as [Hb|Hb];
+    try (apply edge_eqb_eq in Hb; subst; exact Hok); try discriminate.
+  destruct (eref root) as [x|id]; [discriminate|].
+  destruct (cfind (cn s) id) as [nd|] eqn:F; [|discriminate].
+  apply existsb_exists in Hb. destruct Hb as [x [Hx Hb]].
+  apply (IH x e (child_edge_ok s id nd x H F Hx) Hb).
+Qed.
+
+Lemma can_borrow_ok : forall s e, CInv s -> can_borrow_b nl s e = true -> edge_ok_b (cn s) e = true.
+Proof.
+  intros s e H Hb. unfold can_borrow_b in Hb. apply existsb_exists in Hb.
+  destruct Hb as [o [Ho Hb]]. apply (borrow_ok s H nl (snd o) e (ci_own s H o Ho) Hb).
+Qed.
+
+(** a thread can always clone what it owns *)
+Lemma own_can_borrow : forall s tid e, In (tid, e) (cown s) -> can_borrow_b nl s e = true.
+Proof.
+  intros s tid e Hin. unfold can_borrow_b. apply existsb_exists. exists (tid, e).
+  split; [exact Hin|]. simpl snd.
+  assert (X : edge_eqb e e = true) by (apply edge_eqb_eq; reflexivity).
+  destruct nl; simpl; rewrite X; reflexivity.
+Qed.
+
 (** ** preservation, action by action *)
 
 Lemma inv_goi_found : forall s tid lvl ch own1 id, CInv s ->
@@ -140,15 +176,15 @@ Proof.
     + pose proof (ci_rc s H j nd' F). lia.
 Qed.
 
-Lemma inv_retain : forall s tid e id, CInv s -> eref e = RN id -> In (tid, e) (cown s) ->
+Lemma inv_retain : forall s tid e id, CInv s -> eref e = RN id -> edge_ok_b (cn s) e = true ->
   CInv (mkCst (rc_inc id (cn s)) ((tid, e) :: cown s)).
 Proof.
-  intros s tid e id H Er Hin.
+  intros s tid e id H Er Hok.
   assert (E : cn_shape (rc_inc id (cn s)) = cn_shape (cn s)) by apply cn_shape_rc_upd.
   constructor; simpl.
   - apply (TInv_congr k terms nl (cn s)); [symmetry; exact E | apply (ci_tbl s H)].
-  - intros o Ho. rewrite (edge_ok_b_congr k terms _ (cn s) _ E). apply (ci_own s H).
-    destruct Ho as [<-|Ho]; assumption.
+  - intros o Ho. rewrite (edge_ok_b_congr k terms _ (cn s) _ E).
+    destruct Ho as [<-|Ho]; [exact Hok | apply (ci_own s H o Ho)].
   - intros j nd' F. unfold rc_inc in F. rewrite cfind_rc_upd in F.
     rewrite (parents_congr _ (cn s) j E), owners_cons. simpl snd.
     unfold points_to. rewrite Er.
@@ -236,8 +272,8 @@ Proof.
   - (* retain *)
     destruct (eref e) as [x|id] eqn:Er.
     + destruct (cref_ok_b terms (cn s) (RT x)); inversion Hs; subst; exact H.
-    + destruct (owns_b (cown s) (tid, e)) eqn:Ho; [|discriminate].
-      inversion Hs; subst. apply inv_retain; auto. apply owns_b_In. exact Ho.
+    + destruct (can_borrow_b nl s e) eqn:Ho; [|discriminate].
+      inversion Hs; subst. apply inv_retain; auto. apply can_borrow_ok; assumption.
   - (* release *)
     destruct (eref e) as [x|id] eqn:Er.
     + destruct (cref_ok_b terms (cn s) (RT x)); inversion Hs; subst; exact H.
@@ -350,7 +386,7 @@ Proof.
       destruct (Pos.eqb_spec fr id) as [E|_]; [congruence|]. exists nd. auto.
   - destruct (eref e) as [x|j].
     + destruct (cref_ok_b terms (cn s) (RT x)); inversion Hs; subst. exists nd. auto.
-    + destruct (owns_b (cown s) (tid, e)); [|discriminate]. inversion Hs; subst. simpl.
+    + destruct (can_borrow_b nl s e); [|discriminate]. inversion Hs; subst. simpl.
       apply Hsh. apply cn_shape_rc_upd.
   - destruct (eref e) as [x|j].
     + destruct (cref_ok_b terms (cn s) (RT x)); inversion Hs; subst. exists nd. auto.
@@ -414,7 +450,7 @@ Proof.
     + destruct (cfind (cn s) fr); [discriminate|]. inversion Hs; subst. right. exact Hin1.
   - destruct (eref x).
     + destruct (cref_ok_b terms (cn s) (RT t0)); inversion Hs; subst. exact Hin.
-    + destruct (owns_b (cown s) (t, x)); [|discriminate]. inversion Hs; subst. right. exact Hin.
+    + destruct (can_borrow_b nl s x); [|discriminate]. inversion Hs; subst. right. exact Hin.
   - destruct (eref x).
     + destruct (cref_ok_b terms (cn s) (RT t0)); inversion Hs; subst. exact Hin.
     + destruct (take_tok (t, x) (cown s)) eqn:Ht; [|discriminate]. inversion Hs; subst. simpl.
@@ -541,6 +577,19 @@ Proof.
   eexists. split; reflexivity.
 Qed.
 
+(** cloning is enabled for every edge that can be borrowed from an owned edge of any
+    thread: the edge itself or a child edge of a node reachable from it *)
+Theorem retain_enabled : forall s tid o e id, In o (cown s) ->
+  borrow_b (cn s) nl (snd o) e = true -> eref e = RN id ->
+  exists s', step s (ARetain tid e) = Some (s', None) /\ In (tid, e) (cown s') /\
+             cn s' = rc_inc id (cn s).
+Proof.
+  intros s tid o e id Ho Hb Er. simpl. rewrite Er.
+  assert (X : can_borrow_b nl s e = true).
+  { unfold can_borrow_b. apply existsb_exists. exists o. auto. }
+  rewrite X. eexists. split; [reflexivity|]. simpl. auto.
+Qed.
+
 (** ** 8. the table-only projection simulates the full model *)
 
 Theorem erase_sim : forall s a s' r, CInv s -> step s a = Some (s', r) ->
@@ -560,7 +609,7 @@ Proof.
     + destruct (cfind (cn s) fr); [discriminate|]. inversion Hs; subst. reflexivity.
   - destruct (eref e) as [x|j].
     + destruct (cref_ok_b terms (cn s) (RT x)); inversion Hs; subst. auto.
-    + destruct (owns_b (cown s) (tid, e)); [|discriminate]. inversion Hs; subst. simpl.
+    + destruct (can_borrow_b nl s e); [|discriminate]. inversion Hs; subst. simpl.
       split; [apply cn_shape_rc_upd | reflexivity].
   - destruct (eref e) as [x|j].
     + destruct (cref_ok_b terms (cn s) (RT x)); inversion Hs; subst. auto.
@@ -638,8 +687,8 @@ Proof.
     + destruct (cfind (cn s) fr); [discriminate|]. inversion Hs; subst. reflexivity.
   - destruct (eref e) as [x|j] eqn:Er.
     + destruct (cref_ok_b terms (cn s) (RT x)); inversion Hs; subst. auto.
-    + destruct (owns_b (cown s) (tid, e)) eqn:Ho; [|discriminate]. inversion Hs; subst. simpl.
-      apply owns_b_In in Ho. destruct (owned_live s (tid, e) j H Ho Er) as [nd [F _]].
+    + destruct (can_borrow_b nl s e) eqn:Ho; [|discriminate]. inversion Hs; subst. simpl.
+      destruct (edge_ok_b_inner k terms _ _ j (can_borrow_ok s e H Ho) Er) as [nd F].
       rewrite F. reflexivity.
   - destruct (eref e) as [x|j] eqn:Er.
     + destruct (cref_ok_b terms (cn s) (RT x)); inversion Hs; subst. auto.
